@@ -39,4 +39,31 @@ mod kani_verif {
         // hash
         if DoubleOps::eq(&a, &b) { assert!(h(a) == h(b)); }
     }
+
+    #[kani::proof]
+    #[kani::unwind(4)]
+    fn btreemap_two_entries_eq_cmp() {
+        let a0: f64 = kani::any(); let a1: f64 = kani::any();
+        let b0: f64 = kani::any(); let b1: f64 = kani::any();
+        let mut a = BTreeMap::new(); a.insert(1u8, a0); a.insert(2u8, a1);
+        let mut b = BTreeMap::new(); b.insert(1u8, b0); b.insert(2u8, b1);
+        assert!(DoubleOps::eq(&a, &a));
+        assert!(DoubleOps::eq(&a, &b) == (DoubleOps::cmp(&a, &b) == Ordering::Equal));
+        assert!(DoubleOps::cmp(&a, &b) == DoubleOps::cmp(&b, &a).reverse());
+    }
+
+    #[kani::proof]
+    #[kani::unwind(4)]
+    fn vec_two_eq_cmp_hash() {
+        let a: Vec<f64> = vec![kani::any(), kani::any()];
+        let b: Vec<f64> = vec![kani::any(), kani::any()];
+        assert!(DoubleOps::eq(&a, &a));
+        assert!(DoubleOps::eq(&a, &b) == (DoubleOps::cmp(&a, &b) == Ordering::Equal));
+        assert!(DoubleOps::cmp(&a, &b) == DoubleOps::cmp(&b, &a).reverse());
+        if DoubleOps::eq(&a, &b) {
+            let mut r1 = Rec { n: 0, w: [0; 4] }; DoubleOps::hash(&a, &mut r1);
+            let mut r2 = Rec { n: 0, w: [0; 4] }; DoubleOps::hash(&b, &mut r2);
+            assert!(r1.n == r2.n && r1.w == r2.w);
+        }
+    }
 }
